@@ -30,5 +30,5 @@ class ParseTrashInfo:
                     self.found_deletion_date(date)
 
             if line.startswith('Path='):
-                path = unquote(line[len('Path='):])
+                path = unquote(line[len('Path='):], errors='surrogateescape')
                 self.found_path(path)
